@@ -4,7 +4,8 @@ Two kinds of cases (structural models, vp/gen/c15_pkgs.py):
 
 * static: 1-3 generated packages whose every module body (also stubs, source-less byte code) appends its dotted name to a
   sentinel file; compiled-name decoys (real extension suffixes with garbage contents, valid source-less .pyc files; some named after
-  modules that are already imported: json, types, io, logging, sys, os); sub-modules written in PEP 263 encodings (latin-1,
+  modules that are already imported: json, types, io, logging, sys, os); modules whose `__all__` is built from the `__all__` of a module static analysis may
+  not be able to load (compiled decoy, source-less / zipped / not loaded package); sub-modules written in PEP 263 encodings (latin-1,
   cp1252 with a coding cookie and non-ASCII bytes — legal Python, not UTF-8 — and UTF-8 with BOM);
   stubs (.pyi siblings, "<name>-stubs" packages); a site-style .pth file with an `import` line; packages that are only
   reachable as alias targets (one of them the private sibling "_<name>" that resolve_external=None loads), possibly only
@@ -420,6 +421,8 @@ def describe(case):
         classes.append(f"{kind}:has-decoy")
         if _has(pkg0["top"], lambda n: n["t"] == "d" and G.DECOY_NAMES[n.get("name", 0) % len(G.DECOY_NAMES)]):
             classes.append(f"{kind}:decoy-named-like-imported-module")
+    if any(_has(p["top"], lambda n: n.get("all_from")) for p in case["pkgs"]):
+        classes.append(f"{kind}:__all__-built-from-another-module's-__all__")
     for enc in ("latin-1", "cp1252", "bom"):
         if tree_layout and any(_has(ch, lambda n, e=enc: n.get("enc") == e) for ch in pkg0["top"].get("ch", ())):
             classes.append(f"{kind}:source-encoding:{enc}")
